@@ -19,6 +19,7 @@ package server
 //@ func AcceptConnection
 //@   property C15
 //@   requires !G_holds_accept_loop()                        :not_on_accept_loop
+//@   blocks "runs the whole session handshake with one peer"
 // C14: a session that ends during the handshake (the peer hangs up, sends garbage, fails TLS) leaves no socket
 // behind: unless the error says the connection is closed already, the carrier is closed before returning
 //@   property C14
@@ -277,6 +278,10 @@ package server
 //@   property C02
 //@   safe
 //@   callsite smux.Server#1 (config *smux.Config) require config.MaxReceiveBuffer >= 4194304                    :shared_receive_budget_at_least_4MiB
+// C02: both ends keep the multiplexer's keep-alive parameters (a ping every 10 s, give up after 30 s): an end that
+// gives up sooner than the other pings tears the whole session down (all logical connections at once) whenever
+// the peer merely has nothing to send
+//@   callsite smux.Server#1 (config *smux.Config) require config.KeepAliveInterval == 10000000000 && config.KeepAliveTimeout == 30000000000      :keep_alive_parameters_agree_on_both_ends
 //@   callsite smux.Server#1 (config *smux.Config) require config.MaxFrameSize > 0 && config.MaxFrameSize <= 65535 && config.MaxFrameSize <= buffers.BufferSize      :frames_fit_the_copy_buffers
 
 //@ func (ch *ConnectionHandler) multiplexToUpstream$1
@@ -287,6 +292,8 @@ package server
 //@   ensures G_closes(multiplexChannel) >= old(G_closes(multiplexChannel))
 
 //@ func (ws *HttpServer) EndpointHandler$1
+// C15: the handler of one websocket peer holds no mutex while it runs that peer's session handshake
+//@   property C15
 //@   property C01
 //@   property C05, C04, C03
 //@   freevars ws *HttpServer, upstreams Channels
